@@ -39,6 +39,16 @@ CONFIGS = {
 # options that shape the compiled AST (the others are looked up at run time)
 AST_SHAPE = {'off': 'off', 'default': 'd', 'no526': 'no526', 'func-first': 'ff', 'func-last': 'd', 'type-first': 'tf',
              'viol-exc': 'd', 'viol-warn': 'd'}
+# ... and every combination of the three AST-shaping options (two non-default configurations that differ in one of
+# them only must not share a cache file either).  For this module (no decorator-hostile decorators) LAST and
+# LAST_BEFORE_DECOR_HOSTILE place alike, so the shape keeps FIRST / not-FIRST only.
+for _p in (True, False):
+    for _f in ('FIRST', 'LAST', 'LAST_BEFORE_DECOR_HOSTILE'):
+        for _t in ('FIRST', 'LAST', 'LAST_BEFORE_DECOR_HOSTILE'):
+            _n = f'p{int(_p)}-f{_f[0] + str(len(_f))}-t{_t[0] + str(len(_t))}'
+            CONFIGS[_n] = (f"dict(claw_is_pep526={_p}, claw_decor_place_func=BeartypeDecorPlace.{_f}, "
+                           f"claw_decor_place_type=BeartypeDecorPlace.{_t})")
+            AST_SHAPE[_n] = f'{"" if _p else "no526"}{"ff" if _f == "FIRST" else ""}{"tf" if _t == "FIRST" else ""}' or 'd'
 
 MOD_V1 = '''
 import warnings
@@ -296,6 +306,14 @@ def main():
             # ---- history of runs ---------------------------------------------------------------------------
             n = rng.choice((2, 2, 3, 3, 4, 5))
             confs = [rng.choice(list(CONFIGS)) for _ in range(n)]
+            for i in range(1, n):
+                # half of the time the next run differs from the previous one in exactly one AST-shaping option
+                if confs[i - 1].startswith('p') and '-f' in confs[i - 1] and rng.random() < .5:
+                    parts = confs[i - 1].split('-')
+                    j = rng.randrange(3)
+                    alts = [('p0', 'p1'), ('fF5', 'fL4', 'fL25'), ('tF5', 'tL4', 'tL25')][j]
+                    parts[j] = rng.choice([a for a in alts if a != parts[j]])
+                    confs[i] = '-'.join(parts)
             edits = [rng.random() < .25 for _ in range(n)]
             version = 1
             pkg = new_pkg(version)
